@@ -1301,7 +1301,23 @@ class Engine:
                 kwargs["**"] = self.ev(kw.value, st)
                 continue
             kwargs[kw.arg] = self.ev(kw.value, st)
-        return self.call(f, args, kwargs, n, st)
+        res = self.call(f, args, kwargs, n, st)
+        hints = getattr(self.c, "hints", None)
+        if hints and isinstance(n.func, ast.Name) and f"call:{n.func.id}" in hints and not self.spec_mode:
+            # proof hints about the value a call just returned (`_result`): proved here, then assumed
+            if st.guards or self._comp_ctx:
+                raise OutOfSubset(n, "call hint under a short-circuit guard or inside a comprehension")
+            saved = st.env
+            st.env = dict(saved)
+            st.env["_result"] = res
+            try:
+                for i, text in enumerate(hints[f"call:{n.func.id}"]):
+                    goal = z3.simplify(self.spec_bool(text, st))
+                    self.oblige(st, f"hint[call:{n.func.id}][{i}]", n, goal, text)
+                    st.assume(goal)
+            finally:
+                st.env = saved
+        return res
 
     def ev_callee(self, fnode, st):
         if isinstance(fnode, ast.Name) and fnode.id not in st.env:
@@ -1751,7 +1767,33 @@ class Engine:
         val = self.ev(s.value, st)
         for t in s.targets:
             self.assign(t, val, st, s)
+        self.after_assign_hints(s, st)
         return [(st, None)]
+
+    def after_assign_hints(self, s, st):
+        """Proof hints (intermediate assertions of the contract, `hints={"name" | "name#n": [clauses]}`): after the n-th (source order) simple
+        assignment to local `name` each clause is PROVED from the path's hypotheses (obligation `hint[...]`) and then assumed - a cut that keeps the
+        solver's queries small.  Hints never weaken anything: an unprovable hint is an undischarged obligation."""
+        hints = getattr(self.c, "hints", None)
+        if not hints or len(s.targets) != 1 or not isinstance(s.targets[0], ast.Name):
+            return
+        name = s.targets[0].id
+        if getattr(self, "_assign_ord", None) is None:
+            self._assign_ord = {}
+            seen = {}
+            for n_ in ast.walk(self.fn):
+                if isinstance(n_, ast.Assign) and len(n_.targets) == 1 and isinstance(n_.targets[0], ast.Name):
+                    nm = n_.targets[0].id
+                    self._assign_ord[id(n_)] = seen.get(nm, 0)
+                    seen[nm] = seen.get(nm, 0) + 1
+        k = self._assign_ord.get(id(s), 0)
+        clauses = list(hints.get(f"{name}#{k}", [])) + (list(hints.get(name, [])) if k == 0 else [])
+        if st.guards and clauses:
+            raise OutOfSubset(s, "hint under a short-circuit guard")
+        for i, text in enumerate(clauses):
+            goal = z3.simplify(self.spec_bool(text, st))
+            self.oblige(st, f"hint[{name}#{k}][{i}]", s, goal, text)
+            st.assume(goal)
 
     def ex_AnnAssign(self, s, st):
         if s.value is None:
@@ -2041,6 +2083,8 @@ class Engine:
         envi.update(self.spec_env(body_st))
         self.assume_invs(body_st, spec, envi)
         body_st.env[idx_name] = i  # ghost: visible to invariants of nested loops
+        if "_seq" in seq_ghost:
+            body_st.env[f"_seq{k}"] = seq_ghost["_seq"]      # ghost: the sequence loop #k iterates, visible to nested invariants and hints
         # prefix stepping lemma for the iterated sequence: it[:i+1] == it[:i] + [it[i]]
         seq_t = None
         if isinstance(it, V) and isinstance(it.ty, TSeq):
@@ -2049,7 +2093,14 @@ class Engine:
             seq_t = it.ty.sort().keys(it.t)
         if seq_t is not None:
             body_st.assume(SQ.take(seq_t, i.t + 1) == SQ.append1(SQ.take(seq_t, i.t), SQ.at(seq_t, i.t)))
-        self.bind_target(s.target, at(i.t), body_st, s)
+        item = at(i.t)
+        if getattr(self.c, "name_loop_items", False) and isinstance(s.target, ast.Name) and isinstance(item, V) and item.ty is not TNone:
+            # opt-in: the loop variable gets a name of its own (item == seq[i] as a ground equation): obligations then mention the item, not the
+            # sequence and index it came from, which keeps goal-directed slicing local
+            named = self.fresh(body_st, item.ty, s.target.id)
+            body_st.assume(named.t == item.t)
+            item = named
+        self.bind_target(s.target, item, body_st, s)
         for st2, out in self.exec_block(s.body, body_st):
             if out is None or out[0] == "continue":
                 envn = {idx_name: V(TInt, i.t + 1), "_n": V(TInt, ln)}
